@@ -3513,6 +3513,10 @@ impl LineBuf {
 					};
 					self.replace_at(i,new);
 				}
+				// Like d and y, the case operators leave the cursor at the start of what they worked on
+				if !matches!(motion, MotionKind::InclusiveWithTargetCol(..) | MotionKind::ExclusiveWithTargetCol(..)) {
+					self.cursor.set(start);
+				}
 			}
 			Verb::ToLower => {
 				let Some((start,end)) = self.range_from_motion(&motion) else {
@@ -3537,6 +3541,10 @@ impl LineBuf {
 					};
 					self.replace_at(i,new);
 				}
+				// Like d and y, the case operators leave the cursor at the start of what they worked on
+				if !matches!(motion, MotionKind::InclusiveWithTargetCol(..) | MotionKind::ExclusiveWithTargetCol(..)) {
+					self.cursor.set(start);
+				}
 			}
 			Verb::ToUpper => {
 				let Some((start,end)) = self.range_from_motion(&motion) else {
@@ -3560,6 +3568,10 @@ impl LineBuf {
 						ch.encode_utf8(&mut buf)
 					};
 					self.replace_at(i,new);
+				}
+				// Like d and y, the case operators leave the cursor at the start of what they worked on
+				if !matches!(motion, MotionKind::InclusiveWithTargetCol(..) | MotionKind::ExclusiveWithTargetCol(..)) {
+					self.cursor.set(start);
 				}
 			}
 			Verb::Redo |
